@@ -4,6 +4,7 @@ import vf
 import ddgen
 from checks import ddcommon
 from checks import alloccommon
+from checks import arcslabcommon
 
 META = {
     "title": "exact reference counts and garbage collection",
@@ -17,6 +18,10 @@ META = {
 META["technique"] += "; slot allocator of the index-based manager (package ALLOC; the state anchor 'free lists / allocated'): Rocq proofs over an executable interleaving model (coq/Mgr/Alloc.v) of the shared and thread-local store state, the next links in the slot array and the node count bookkeeping, for every schedule of any number of threads; the allocator events logged by the cfg(oxidd_verif) hooks of /repo are replayed on the extracted model (ocaml/alloc_main.ml)"
 META["level_text"] += " Slot allocator (package ALLOC, C05_alloc_*, 18 theorems; out-of-memory theorems under C14_alloc_*): in every state reachable under ANY interleaving of the threads' prepare_local_state / guard drop / add_node / free_slot / collector-epilogue actions the live slots, the slots of the shared free lists, of the threads' local lists, of the threads' pre-allocated ranges and the never-allocated rest of the slot array are pairwise disjoint, duplicate-free and together exactly the slot IDs TERMINALS..TERMINALS+capacity (partition; every stored list head heads a well-formed list: chains_ok); a slot handed out by add_node was in exactly one list / range (the head of the list resp. first slot of the range that belongs to the path taken: handout_source), held no node and holds one afterwards (handout_safe); a slot that holds a node is never handed out again until it is freed, under every schedule (no_double_handout); #live + #free = capacity (free_count); at quiescence every slot without a node is reachable from the shared state (quiescent_no_leak) and the shared node count is exact (quiescent_count); the capacity probe: when no other thread holds slots a thread creates exactly capacity - #live nodes before OutOfMemory - after 'drop all + gc' every slot can be allocated again (capacity_probe); shared node count + the threads' deltas = #live (count_exact), the number compared with the high-water mark is #live minus the other threads' pending deltas (trigger_count); non-vacuity with 2-3 threads, chunk size 2, capacity 6 through every action and path (example); the seeded variants C01e (no_reset_refuted), C05c (tail_zero_refuted), C07b (no_prep_reset_refuted) and the count drift of the hand-over (ho_drift_refuted, fixed in /repo eed63c8) violate these on computed schedules. Tie: see checks/alloccommon.py: the logged allocator events of sequential, parallel, nested and multi-chunk cases are replayed on the extracted model; a slot handed out while it holds a node, a double free, an ID outside the slot array, a shared node count (also approx_num_inner_nodes) that differs from the number of handed-out slots when no thread has a pending delta = violation."
 META["level_note"] += " Slot allocator (package ALLOC): the model covers the slot array's free / node / uninitialised states and the counters, not the contents of nodes, integer overflow or memory ordering; see checks/C14.py level_note and notes/ALLOC.md."
+# package ARCSLAB (node store of the pointer-based manager, crate arcslab): coq/Tbl/ArcSlab*.v, coq/Tbl/RcStore.v, theorems C05_arcslab_*, stage checks/arcslabcommon.py
+META["technique"] += "; node store of the pointer-based manager (package ARCSLAB; the anchor crates/arcslab/src/lib.rs): Rocq proofs over an executable model (coq/Tbl/ArcSlab.v) of the slab (pages of slots, one free list through the slots, item counts, num_items, the slab's own count, IntHandle / ExtHandle) for every script of client operations, tied to the crate by a stand-alone harness (h_slab) that drives arcslab directly with items that log their drops"
+META["level_text"] += " Node store of the pointer-based manager (package ARCSLAB, C05_arcslab_*, 26 theorems; model coq/Tbl/ArcSlab.v mirrors crates/arcslab/src/lib.rs: Page::new, PageList::get_slot (eager page allocation), add_item, free_slot (LIFO push), Slot::retain / release / release_move, force_into_inner, ArcSlab::retain / release, Clone / Drop / into_inner / drop_with of IntHandle and ExtHandle, ExtHandle::from): in every state reachable by ANY script no operation meets an inconsistent structure (never_broken); the slots of all pages are partitioned into items, recycled free slots and never-used free slots, the free list is exactly recycled ++ never-used without repetition and num_items is the number of items (partition); add_item returns the head of the free list, a free slot to which no handle refers, and changes nothing else (add_fresh); an item's count is the number of handle variables that refer to it, never 0, every handle refers to a live item (rc_exact, no_dangling, free_slot_no_handle); drop / drop_with / into_inner take the item out of its slot exactly when the handle is the last one (Some / Drop logged exactly then), the slot becomes the head of the free list, an ExtHandle releases the slab after the item and the slab dies (data dropped last) exactly when that was its only reference (end_spec); items added = items dropped or returned + items in slots, per operation and over whole scripts, nothing is in a slot and nothing was leaked once no handle is left (step_conservation, conservation, no_leak, destroyed_leak_free); the slab is alive iff ArcSlabRefs + raw references + ExtHandles > 0 (alive_iff_count); LIFO re-use and the complete address policy incl. the moment a page is added (lifo, policy_*). Tie: checks/arcslabcommon.py: all scripts of acceptable operations up to length 5 over 3 handles on pages of 1 and 3 slots, all scripts of length 3 over the full alphabet, random scripts up to 500 operations on pages of 1..63 slots run on the real crate and on the extracted model: slot addresses (page, index), returned items, counts, num_items, live page allocations, the drop log, the moment the slab's data is dropped and the rejected operations must agree; again on the debug build; thorough tier also under miri."
+META["level_note"] += " Node store of the pointer-based manager (package ARCSLAB): sequential model (atomics, memory orderings and the page-list mutex are not modelled), overflow guards and allocation failure are outside the model; unsafety of the pointer arithmetic is only exercised (miri, thorough tier), not proved."
 
 ALLOWED_AXIOMS = ()
 
@@ -148,9 +153,12 @@ def run(ctx):
                                       write_ev=False, debug_cases=None, sig_extra="gc-model")
     # package ALLOC: the slot allocator stage (hooks build, event replay on the extracted model coq/Mgr/Alloc.v)
     alloc_cov = alloccommon.run_stage(ctx)
+    # package ARCSLAB: the node store of the pointer-based manager (crate arcslab driven directly, extracted model coq/Tbl/ArcSlab.v)
+    slab_cov = arcslabcommon.run_stage(ctx)
     ddcommon.run_dd(
         ctx, ["C05"], cases, proofs=False,
-        extra_cov={"gc_model_cases_ok": ok_s, "gc_model_cases_bad": len(bad_s), "alloc_stage": alloc_cov, "alloc_stage_rule": alloccommon.RULE},
+        extra_cov={"gc_model_cases_ok": ok_s, "gc_model_cases_bad": len(bad_s), "alloc_stage": alloc_cov, "alloc_stage_rule": alloccommon.RULE,
+                   "arcslab_stage": slab_cov, "arcslab_stage_rule": arcslabcommon.RULE},
         rule="MTBDD terminals: histories over I64 and F64 terminals with a snapshot after every op (model invariant on every lifted snapshot; every gc() and constant() replayed on the extracted terminal-manager model); managers with 3..12 terminal slots framed by the terminal capacity probe, constants re-created right after collections, gc before every op in a fifth of them; large managers (2-3 allocation chunks; thorough 2-5): sessions that create up to 1200 nodes, drop them and collect inside one manager session, then a capacity probe that fills the store completely; MTBDD histories (arithmetic, ite, restrict, constants; gc; final drop all + gc: no inner node and no terminal left, after every gc no unreferenced terminal survives); per kind (bdd, bcdd, zbdd): random histories (apply, quantification, substitution, clone, drop, drop on another thread, gc, add_vars, set_var_order) with a snapshot and the reference-count audit after every op and a final 'drop all; gc; snapshot'; small-capacity managers (120..500 nodes, automatic collection at the high-water mark, failing operations) framed by the capacity probe; tdd: 36 (thorough 300) random histories (constants, variables, not, 8 connectives, ite, cofactors, clone, drop, drop on another thread, gc, add_vars, set_var_order; 1 or 4 workers) with the generic audit AND the ternary audit td_rc_b after every op, no unreferenced node after gc, final 'drop all; gc; snapshot' = empty store; 24 (thorough 200) stores of 6..200 nodes framed by the ternary capacity probe T3FILL (single-node functions, all alive, until out-of-memory: every slot in use; per variable the 12 nodes with terminal children that a connective makes of x and the constant u, then nodes x0 op g at level 0), failing operations in between. non-trivial = case with >= 3 ops",
         allowed_axioms=ALLOWED_AXIOMS)
 
@@ -159,6 +167,8 @@ def replay(ctx, path):
     import json
     if json.load(open(path)).get("driver") == "alloc":
         return alloccommon.replay(ctx, json.load(open(path)))
+    if json.load(open(path)).get("driver") == "arcslab":
+        return arcslabcommon.replay(ctx, json.load(open(path)))
     if "--c05s" in json.load(open(path)).get("drv_args", []):
         with _c05s_driver():
             ddcommon.replay_dd(ctx, path)
